@@ -457,10 +457,45 @@ func deriveTripCount(loop *Loop) {
 		return
 	}
 
+	// The comparison is only a CONTINUE condition when its true successor stays in the loop.
+	// For `for { if i >= n { break }; ... }` the true successor leaves the loop: the loop runs
+	// while the NEGATED comparison holds. Ignoring the polarity annotated such loops with the
+	// trip count of the opposite test (e.g. 0 for a loop that runs 10 times).
+	if len(exitBlock.Succs) != 2 {
+		loop.TripCount = &SCEVUnknown{Value: nil}
+		return
+	}
+	trueStays := loop.Blocks[exitBlock.Succs[0]]
+	falseStays := loop.Blocks[exitBlock.Succs[1]]
+	op := binOp.Op
+	switch {
+	case trueStays && !falseStays:
+		// continue condition as written
+	case !trueStays && falseStays:
+		switch op {
+		case token.LSS:
+			op = token.GEQ
+		case token.LEQ:
+			op = token.GTR
+		case token.GTR:
+			op = token.LEQ
+		case token.GEQ:
+			op = token.LSS
+		case token.EQL:
+			op = token.NEQ
+		default: // `!=` as an exit condition means "run while equal": no useful count
+			loop.TripCount = &SCEVUnknown{Value: nil}
+			return
+		}
+	default:
+		loop.TripCount = &SCEVUnknown{Value: nil}
+		return
+	}
+
 	var isUpCounting, ivOnLeft bool
 	var isInclusive, isNEQ bool
 
-	switch binOp.Op {
+	switch op {
 	case token.LSS:
 		isUpCounting = true
 		ivOnLeft = true
